@@ -593,6 +593,8 @@ unsafe fn arbitrary_state_shape(max_a: usize, max_b: usize, with_b: bool) -> St 
         sa.actions.insert(ActionId(ida[1]), Arc::from(act(2)));
     }
     let mut sb = Slot { prev: Prev { signal: b, info: std::mem::zeroed() }, actions: BTreeMap::new() };
+    // B's previous disposition was 'default' or 'ignore' (symbolic): neither is ever called, and neither changes what runs
+    sb.prev.info.sa_sigaction = if kani::any() { libc::SIG_IGN } else { libc::SIG_DFL };
     if nb >= 1 {
         sb.actions.insert(ActionId(idb), Arc::from(act(3)));
     }
@@ -863,7 +865,8 @@ fn c02_op_handler() {
             assert!(LOGN >= 1 && LOG[0] == PREV3 && PREV_SIG == sig, "C04.FIRST: the handler that was installed before the library took the signal over runs first, exactly once - also when no action is left");
             assert!(log_is(if st.na == 0 { &[PREV3] } else if st.na == 1 { &[PREV3, 1] } else { &[PREV3, 1, 2] }), "C02.ORDER: a delivery runs exactly the actions of its signal in the one snapshot it read, each once, in id (= registration) order");
         } else if sig == st.b {
-            assert!(log_is(if st.nb == 0 { &[] } else { &[3] }), "C02.ONLY-SIG: actions registered for other signals are never run");
+            assert!(LOGN <= 1 && (LOGN == 0 || LOG[0] == 3), "C02.ONLY-SIG: actions registered for other signals are never run");
+            assert!(log_is(if st.nb == 0 { &[] } else { &[3] }), "C02.ORDER: a delivery runs exactly the actions of its signal in the one snapshot it read - whatever the signal's previous disposition was (default, ignore, handler)");
         } else if fb_some && fb_sig == sig {
             assert!(log_is(&[PREV3]) && PREV_SIG == sig, "C04.FALLBACK-ONLY-UNSLOTTED: without a slot, a matching fallback is chained to, exactly once");
         } else {
